@@ -273,6 +273,22 @@ def ref_output(shape, flow):
     return [gen.freeze(x) for x in out]
 
 
+def _poison(v):
+    """In-place changes a hostile consumer makes to a value it has received."""
+    if isinstance(v, tuple) and len(v) == 2 and isinstance(v[1], dict):
+        ctx = v[1]
+        ctx["poisoned-by-consumer"] = True
+        for x in ctx.values():
+            if isinstance(x, dict):
+                x["poisoned-by-consumer"] = True
+                for y in x.values():
+                    if isinstance(y, list):
+                        y.append("poison")
+        v = v[0]
+    if isinstance(v, list):
+        v.append("poison")
+
+
 class Pipeline(object):
     """One instrumented run of the shape. Fresh lena objects each time."""
 
@@ -396,18 +412,24 @@ class Pipeline(object):
                 self.start = lambda: _D(new).run(probe)
 
     def run(self, take=None):
-        """Consume (at most *take*) values; returns (snapshots, exception or None)."""
+        """Consume (at most *take*) values; returns (snapshots, exception or None).
+        The consumer changes every received value in place before it asks for the next one
+        (what is stored and replayed is the flow that passed, not what became of it later)."""
         got = []
         exc = None
         it = None
+        poison = _poison if self.shape not in ("grow", "acc") else (lambda v: None)
         try:
             it = self.start()
             if take is None:
                 for v in it:
                     got.append(gen.freeze(v))
+                    poison(v)
             else:
                 for _ in range(take):
-                    got.append(gen.freeze(next(it)))
+                    v = next(it)
+                    got.append(gen.freeze(v))
+                    poison(v)
         except (InjectedFault, InjectedInterrupt) as e:
             exc = e
         except (RuntimeError, StopIteration) as e:
@@ -730,3 +752,5 @@ RULE += (' Added: two first runs through one Cache element alive at the same tim
          'suspended after k values; then closed / dropped / finished before, during or after '
          'the second): no run that is consumed to its end fails or is altered, nothing is left '
          'beside the cache file, and the next run replays a completely consumed flow.')
+RULE += (' Added: the consumer of every run changes each received value in place (context keys, '
+         'nested lists) before it asks for the next one.')
